@@ -254,6 +254,7 @@ var alterKinds = []string{"none", "aud", "iss", "with", "can", "nb-value", "nb-a
 	"sig-flip", "sig-code", "sig-trunc", "sig-append", "sig-grow", "other-key", "other-did", "nb-link-to-slashmap", "nb-bytes-to-slashmap", "fct-link-to-slashmap"}
 
 func genC07(cfg Config, emit Emit) error {
+	genIssueAlias(emit)
 	n := 1200
 	if cfg.Thorough() {
 		n = 30000
